@@ -721,7 +721,7 @@ class World(object):
     def rawid(raw):
         try:
             o = json.loads(raw)
-        except (ValueError, UnicodeDecodeError):
+        except (ValueError, UnicodeDecodeError, RecursionError):
             return None
         if isinstance(o, dict):
             i = o.get('id')
